@@ -701,7 +701,7 @@ func genCase(r *rand.Rand, malformed bool) caseIn {
 				if malformed && r.Intn(8) == 0 {
 					name = []string{"X A", "X-Ä", "a(b)"}[r.Intn(3)]
 				}
-				if malformed && r.Intn(8) == 0 {
+				if malformed && ck != "Host" && r.Intn(8) == 0 { // an invalid Host is blanked by net/http, not modelled
 					val = "ctl\x01char"
 				}
 			}
